@@ -201,6 +201,52 @@ def csr_rules(ctx):
         r.ok("map returns (searchsorted(pattern of its own sorted csr, rows*ncol+cols), indices, indptr, nnz); rows/cols appended per group in key order")
     else:
         r.fail(fm.qualname, "map-shape", fm.file, fm.lineno, "__Get_csr_map", f"the map no longer has the shape (loop over the group tuple appending rows and cols in both branches; slot = searchsorted(canonical index of its own sorted pattern, ...); return (slots, indices, indptr, nnz)): {detail}")
+    # ---- R3.5 the looked-up linear index is row*ncol + col on both sides, rows before cols in the pattern
+    r5 = ctx.rule("R3.5", "linear CSR index: both the canonical index of the pattern and the looked-up index are <row>*ncol + <col>; the pattern is built from (rows, cols) in that order", min_instances=3)
+
+    def kind(expr):
+        """ROW / COL provenance of an index expression of __Get_csr_map"""
+        t = Lm.text(expr)
+        e = Lm.resolve(expr)
+        # strip .astype(...)
+        while isinstance(e, ast.Call) and isinstance(e.func, ast.Attribute) and e.func.attr == "astype":
+            e = Lm.resolve(e.func.value)
+        if isinstance(e, ast.Attribute) and e.attr == "indices":
+            return "COL"
+        if isinstance(e, ast.Call) and (dotted(e.func) or "") == "np.repeat" and "np.arange(" in norm_text(e.args[0]) and ".indptr" in norm_text(e):
+            return "ROW"
+        if isinstance(e, ast.Call) and (dotted(e.func) or "") == "np.concatenate" and e.args and isinstance(e.args[0], ast.Name):
+            lst = e.args[0].id
+            vals = [Lm.text(c.args[0]) for c in ast.walk(fm.node) if isinstance(c, ast.Call) and isinstance(c.func, ast.Attribute) and c.func.attr == "append" and isinstance(c.func.value, ast.Name) and c.func.value.id == lst]
+            if vals and all(("Get_rows_e(" in v or "Get_assembly_e(" in v) for v in vals):
+                return "ROW"
+            if vals and all(("Get_columns_e(" in v or "np.zeros_like(" in v) for v in vals):
+                return "COL"
+        return "?"
+
+    def linear_form(expr):
+        e = Lm.resolve(expr)
+        while isinstance(e, ast.Call) and isinstance(e.func, ast.Attribute) and e.func.attr == "astype":
+            e = Lm.resolve(e.func.value)
+        if isinstance(e, ast.BinOp) and isinstance(e.op, ast.Add) and isinstance(e.left, ast.BinOp) and isinstance(e.left.op, ast.Mult):
+            return kind(e.left.left), Lm.text(e.left.right), kind(e.right)
+        return None
+
+    ssl = [c for c in ast.walk(fm.node) if isinstance(c, ast.Call) and (dotted(c.func) or "") == "np.searchsorted"]
+    for label, expr in (("pattern index", ssl[0].args[0] if ssl else None), ("looked-up index", ssl[0].args[1] if ssl and len(ssl[0].args) > 1 else None)):
+        r5.instance(fn=fm.qualname)
+        lf = linear_form(expr) if expr is not None else None
+        if lf is not None and lf[0] == "ROW" and lf[2] == "COL":
+            r5.ok(f"{label} = <row> * {lf[1]} + <col>")
+        else:
+            r5.fail(fm.qualname, f"linear-index:{label}", fm.file, fm.lineno, "__Get_csr_map", f"the {label} is not <row>*ncol + <col> (found {lf}): entries would be looked up in the transposed slot (invisible for symmetric element matrices)")
+    r5.instance(fn=fm.qualname)
+    pat = [c for c in ast.walk(fm.node) if isinstance(c, ast.Call) and (dotted(c.func) or "").endswith("csr_matrix") and c.args and isinstance(c.args[0], ast.Tuple) and len(c.args[0].elts) == 2 and isinstance(c.args[0].elts[1], ast.Tuple)]
+    if pat and [kind(x) for x in pat[0].args[0].elts[1].elts] == ["ROW", "COL"]:
+        r5.ok("pattern = csr_matrix((ones, (rows, cols)))")
+    else:
+        r5.fail(fm.qualname, "pattern-order", fm.file, fm.lineno, "__Get_csr_map", "the structure-only matrix is not built from (row indices, column indices) in that order")
+
     # connectivity immutable outside __init__
     r.instance(fn=GE)
     ge = repo.cls(GE)
